@@ -165,8 +165,10 @@ def stress(rng, n):
         conc = r.choice([1, 2, 8])
         cache = r.choice([0, 1, 256])
         threads = r.choice([3, 6, 8])
+        # every third run also has the background task checking the merge triggers every 1-3 ms (and merging when they fire)
+        bg = " policy=always interval=%d jitter=0/1 tfrag=1/10 tdead=0" % r.rng(1, 3) if i % 3 == 2 else ""
         out.append(("stress%d" % i, "\n".join([
-            "CASE stress%d mfs=%d conc=%d cache=%d frag=0/1 dead=0 small=1000000000" % (i, mfs, conc, cache),
+            "CASE stress%d mfs=%d conc=%d cache=%d frag=0/1 dead=0 small=1000000000%s" % (i, mfs, conc, cache, bg),
             "stress %d %d %d %d %d" % (threads, r.choice([60, 120]), r.choice([1, 2, 3]), r.rng(1, 10 ** 6), r.choice([0, 3, 10])),
             "timeout 60000", "END"])))
     return out
@@ -231,6 +233,7 @@ def main(tier, seed):
         "rule": "7 targeted interleavings forced on the real code by parking a named thread at a verif schedule point (half-written "
                 "large entry vs reader remap, get vs merge, set vs merge, del vs del, get inside the merge loop, pool of one) plus "
                 "free-running stress (3-8 threads, 1-3 hot keys, unique values below and above the 8 KiB buffer, merges every 0-10 ms, "
+                "in every third run the background task checks the merge triggers every 1-3 ms, "
                 "rollovers, pool sizes 1/2/8, cache 0/1/256); each timed history is checked per key by a Wing-Gong-Lowe "
                 "linearizability search against the map; afterwards pool-size+1 probe gets must complete",
         "samples": [cases[0][1], cases[-1][1]],
